@@ -12,6 +12,7 @@ tie:      * translator tools/gen/c17_media.py (MEDIA_TYPES, keyword sets; the tw
 oracle (implementation only, independent of the model): see harness/c17_oracle.py
 """
 import logging
+import os
 
 from lib.framework import Check, enc, time_limit
 
@@ -72,9 +73,44 @@ class C17(Check):
         n = ctx.n(2500, 60000)
         for _ in range(n):
             hist.append(G.random_history(rng))
-        import os
+        self.book(ctx, hist)
+        O.check_vocabulary(ctx, impl)
         if os.environ.get('C17_DEV') != 'oracle-only':     # development switch: implementation-side oracle only
             self.correspond(ctx, impl, hist)
+        O.run_oracle(ctx, impl, hist, rng)
+
+    def book(self, ctx, hist):
+        for h in hist:
+            ctx.case(key=('hist', h.context, h.start, tuple(h.ops), h.raising), nontrivial=h.nontrivial(),
+                     sample={'context': h.context, 'start': h.start, 'raising': h.raising,
+                             'ops': [list(o) for o in h.ops]},
+                     kind='hist:%s:%s' % (h.context, h.kind))
+            for o in h.ops:
+                ctx.count('op:' + o[0])
+
+    def search(self, ctx):
+        """an obligation or the correspondence broke: look for a concrete failing input with the implementation-side
+        oracle — around the disagreeing histories (every prefix of the operations, both error modes, the three
+        owners) and on a larger random sample"""
+        logging.getLogger('CSSUTILS').setLevel(logging.FATAL)
+        ctx.search_mode = True
+        impl = Impl()
+        rng = ctx.sub_rng('c17-search')
+        hist = []
+        for d in ctx.disagreements[:50]:
+            i = d.get('input') or {}
+            if 'start' not in i:
+                continue
+            ops = [tuple(o) for o in i.get('ops', [])]
+            for k in range(len(ops) + 1):
+                for context in ('alone', 'media', 'import'):
+                    for raising in (False, True):
+                        hist.append(G.History(context, i['start'], ops[:k], raising=raising, kind='search'))
+        hist += G.boundary_histories()
+        for _ in range(20000):
+            hist.append(G.random_history(rng))
+        self.book(ctx, hist)
+        O.check_vocabulary(ctx, impl)
         O.run_oracle(ctx, impl, hist, rng)
 
     # -- correspondence --------------------------------------------------------------------------
@@ -87,11 +123,6 @@ class C17(Check):
                 lines.append(line)
                 expect.append(reply)
                 owners.append(h)
-            ctx.case(key=('hist', h.context, h.start, tuple(h.ops)), nontrivial=h.nontrivial(),
-                     sample={'context': h.context, 'start': h.start, 'ops': [list(o) for o in h.ops]},
-                     kind='hist:%s:%s' % (h.context, h.kind))
-            for o in h.ops:
-                ctx.count('op:' + o[0])
         if not ctx.model_ok:
             return
         out = ctx.driver(lines)
